@@ -1209,6 +1209,7 @@ func runIndex(c *vkit.Collector, rng *vkit.Rng, budget int) {
 		runOneCollection(c, rng, it, kind, &maxEdges, &maxCells)
 	}
 	okBudget = 4 * budget // Coq also decides index_okb on dumps taken after updates
+	runRemoveRegression(c, rng, &maxEdges, &maxCells)
 	for it := 0; it < 6*budget; it++ {
 		runLifecycle(c, rng, it, &maxEdges, &maxCells)
 	}
@@ -1290,6 +1291,58 @@ func (col *collection) addToIndex(rng *vkit.Rng, center s2.Point, radius s1.Angl
 	col.history = append(col.history, fmt.Sprintf("Add %s (%s, %d edges)", what, col.shapes[len(col.shapes)-1].typ, len(col.shapes[len(col.shapes)-1].edges)))
 }
 
+// runRemoveRegression is the replay of the defect repaired by ecc132d (KNOWN_FINDINGS
+// ShapeIndex.Remove.reindexBound), run first in every run: Add a, b, c; Remove(a); then c must
+// still contain its centre; a later Add must be indexed; and with a single live shape whose id is
+// not 0 CrossingsEdgeMap must not dereference a nil shape. Every stage is also validated in full.
+func runRemoveRegression(c *vkit.Collector, rng *vkit.Rng, maxEdgesP, maxCellsP *int) {
+	col := &collection{kind: "lifecycle (regression ecc132d)", index: s2.NewShapeIndex()}
+	ll := func(lat, lng float64) s2.Point { return s2.PointFromLatLng(s2.LatLngFromDegrees(lat, lng)) }
+	centres := []s2.Point{ll(0, 0), ll(0, 90), ll(0, 180), ll(60, -90)}
+	add := func(k int) {
+		l := s2.RegularLoop(centres[k], s1.Angle(0.1), 8)
+		col.add(l, "Loop", true, map[string]interface{}{"type": "Loop", "center": p3(centres[k]), "radius": 0.1, "n": 8})
+		col.index.Add(l)
+		col.history = append(col.history, fmt.Sprintf("Add 8-gon %d", k))
+	}
+	remove := func(k int) {
+		col.index.Remove(col.shapes[k].shape)
+		col.shapes[k].removed = true
+		col.history = append(col.history, fmt.Sprintf("Remove shape %d", k))
+	}
+	expect := func(stage string) {
+		col.history = append(col.history, "query ("+stage+")")
+		safely(c, "regression "+stage, func() interface{} { return col.replay(map[string]interface{}{}) }, func() {
+			q := s2.NewContainsPointQuery(col.index, s2.VertexModelSemiOpen)
+			for k, sh := range col.shapes {
+				if sh.removed {
+					continue
+				}
+				c.Eval(fmt.Sprintf("regression:%s:%d", stage, k), true)
+				if !q.ShapeContains(sh.shape, centres[k]) {
+					c.Violate("ShapeIndex.Remove.reindexBound", fmt.Sprintf("%s: live shape %d no longer contains its own centre through the index", stage, k),
+						col.replay(map[string]interface{}{"shapeID": k, "p": p3(centres[k])}))
+				}
+			}
+			a, b := centres[0], centres[3]
+			_ = s2.NewCrossingEdgeQuery(col.index).CrossingsEdgeMap(a, b, s2.CrossingTypeAll)
+		})
+		validateAndQuery(c, rng, col, 2000+len(col.history), maxEdgesP, maxCellsP)
+	}
+	c.Class("index-lifecycle regression (ecc132d)")
+	add(0)
+	add(1)
+	add(2)
+	expect("built")
+	remove(0)
+	expect("after Remove(a)")
+	add(3)
+	expect("after Remove(a), Add(d)")
+	remove(1)
+	remove(3)
+	expect("one live shape with id 2")
+}
+
 func runLifecycle(c *vkit.Collector, rng *vkit.Rng, it int, maxEdgesP, maxCellsP *int) {
 	col := &collection{kind: "lifecycle", index: s2.NewShapeIndex()}
 	stage := func(name string) {
@@ -1299,27 +1352,7 @@ func runLifecycle(c *vkit.Collector, rng *vkit.Rng, it int, maxEdgesP, maxCellsP
 			c.Violate("Shape.Edge", n, col.replay(map[string]interface{}{}))
 		}
 		panicNote = nil
-		before := len(c.Violations)
 		validateAndQuery(c, rng, col, 1000+it, maxEdgesP, maxCellsP)
-		// Known defect of the re-indexing update (KNOWN_FINDINGS: ShapeIndex.Remove.reindexBound):
-		// applyUpdatesInternal re-adds ids below len(s.shapes), the number of LIVE shapes, so after
-		// removing a shape that is not the last one every live shape with id >= live count is
-		// dropped. In exactly those histories the stage's violations are reported under that one
-		// specific kind (one per stage, so that the violation list keeps room for other kinds).
-		live, maxLive := 0, -1
-		for i, sh := range col.shapes {
-			if !sh.removed {
-				live++
-				maxLive = i
-			}
-		}
-		if maxLive >= live && len(c.Violations) > before {
-			first := c.Violations[before]
-			first.Desc = fmt.Sprintf("after Remove of a shape that is not the last, live shape ids reach %d but only ids < %d (the number of live shapes) are re-indexed; first symptom [%s]: %s", maxLive, live, first.Kind, first.Desc)
-			first.Kind = "ShapeIndex.Remove.reindexBound"
-			c.Violations = append(c.Violations[:before], first)
-			c.Class("index-lifecycle stage hit the known defect ShapeIndex.Remove.reindexBound")
-		}
 	}
 	safely(c, "index lifecycle", func() interface{} { return col.replay(map[string]interface{}{}) }, func() {
 		// first batch on a middle face, so that later additions sort both before and after its cells
